@@ -622,23 +622,14 @@ def simplify_boolean_expressions(source: str) -> str:
 
             continue
 
-        if isinstance(operator, ast.Eq):
-            yield node, ast.Constant(value=left == right, kind=None)
+        try:
+            # The comparison is of known values, and its result is known if it can be evaluated.
+            # Something like 0 < [0] raises TypeError at runtime, and has no known value.
+            value = core.literal_value(node)
+        except ValueError:
+            continue
 
-        elif isinstance(operator, ast.NotEq):
-            yield node, ast.Constant(value=left != right, kind=None)
-
-        elif isinstance(operator, ast.Gt):
-            yield node, ast.Constant(value=left > right, kind=None)
-
-        elif isinstance(operator, ast.Lt):
-            yield node, ast.Constant(value=left < right, kind=None)
-
-        elif isinstance(operator, ast.GtE):
-            yield node, ast.Constant(value=left >= right, kind=None)
-
-        elif isinstance(operator, ast.LtE):
-            yield node, ast.Constant(value=left <= right, kind=None)
+        yield node, ast.Constant(value=value, kind=None)
 
 
 @processing.fix
